@@ -19,7 +19,8 @@ BOUNDS = {
     'quick': 'one superslab with 2 halos, every raw column a free symbol (int16 ratios as ints, floats as reals), BoxSize and VelZSpace_to_kms free; '
              'every valid column (84 halo_info + cleaned/progenitor columns): alone vs "all" vs the default set vs [column, integer column] vs '
              '[integer column, column] vs with its dependencies first/last, plus a seeded sample of 48 ordered pairs; cleaned on/off; '
-             'subsamples off / A (concrete particle layout); convert_units on/off',
+             'subsamples off / A (concrete particle layout); convert_units on/off'
+             '; also: halo light-cone catalogue (light-cone columns + kept L2com columns, all pairs of avg/interp columns); float32 stores carry opaque rounding markers',
     'thorough': 'as quick with all ordered pairs of columns within each of 6 column families and 400 sampled cross-family pairs',
 }
 OUTSIDE = 'the eigenvector decoder (opaque stand-in here, C18); float rounding; more than one superslab (C03); catalogue files on disk'
